@@ -399,7 +399,7 @@ PROPS = {
         "static": [("pcapgo", "c15.go")],
         "bounds": "every stream length 0..L enumerated (one instance per length), contents fully symbolic; pcap L=56 quick/72 thorough, snoop L=48/64, pcapng L=48/96; up to 3 (pcap) / 2 (snoop, pcapng) read calls, copying or zero-copy chosen per call; chunking: first two Read calls return 1, 3, 7 or all bytes (all 16 combinations); fault: I/O error injected at a symbolic byte position; declared pcap snap length assumed <= 65535; allocations whose symbolic size can exceed 65536 elements are reported",
         "outside": "gzip-wrapped input (assumed away right after the magic test); longer streams",
-        "quick": {"timeout": 600, "params": "verif_C15_pcap:len=0..48;verif_C15_pcap_(chunks|fault):len=0..48/4;verif_C15_snoop.*:len=0..44/4;verif_C15_ng:len=0..30/2;verif_C15_ng_idb:len=0..28/4;verif_C15_ng_epb:len=28..44/4", "units": "verif_C15_(pcap|pcap_chunks|pcap_fault|snoop|snoop_fault|ng|ng_idb|ng_epb)"},
+        "quick": {"timeout": 1200, "maxpaths": 6000, "partial_ok_all": True, "params": "verif_C15_pcap:len=0..48;verif_C15_pcap_(chunks|fault):len=0..48/4;verif_C15_snoop.*:len=0..44/4;verif_C15_ng:len=0..30/2;verif_C15_ng_idb:len=0..28/4;verif_C15_ng_epb:len=28..44/8", "units": "verif_C15_(pcap|pcap_chunks|pcap_fault|snoop|snoop_fault|ng|ng_idb|ng_epb)"},
         "thorough": {"timeout": 3000, "params": "verif_C15_pcap.*:len=0..72;verif_C15_snoop.*:len=0..64;verif_C15_ng:len=0..40;verif_C15_ng_(chunks|fault|mixed):len=0..36;verif_C15_ng_idb:len=0..44;verif_C15_ng_epb:len=28..64"},
     },
     "C16": {
